@@ -652,6 +652,8 @@ def builtin_call(self, st, name, args, kwargs, node=None):
             return [(OK, st, ListVal([]))]
         v = a[0]
         if isinstance(v, (ListVal, TupleVal)):
+            if getattr(v, "items_of", None) is not None:
+                return [(OK, st, v)]        # list(d.items()) / list(d.values()): a snapshot; iteration uses the (key, value) view of the map
             return [(OK, st, ListVal(list(v.items)))]
         if isinstance(v, GenVal):
             return [(OK, st, v)]
